@@ -12,7 +12,7 @@ for seed in $(seq $1 $2); do
     n=$((n+1))
     VERIF_SEED=$seed VERIF_EVIDENCE_DIR=$scratch/ev VERIF_REPLAY_DIR=$scratch/rp $here/bin/check $prop $tier > $scratch/out.log 2>&1
     code=$?
-    if [ $code != 0 ]; then bad=$((bad+1)); echo "seed=$seed $prop exit=$code"; grep -E "oracle|VIOLATION|HARNESS" $scratch/out.log | head -5; cp -r $scratch/rp /tmp/sweep_replays_$seed_$prop 2>/dev/null; fi
+    if [ $code != 0 ]; then bad=$((bad+1)); echo "seed=$seed $prop exit=$code"; grep -E "oracle|VIOLATION|HARNESS" $scratch/out.log | head -5; cp -r $scratch/rp /tmp/sweep_replays_${seed}_$prop 2>/dev/null; fi
   done
   echo "seed $seed done ($n runs so far, $bad alarms)"
 done
